@@ -234,8 +234,18 @@ func ruleSendData(w *core.World, r *core.Report, sd *ssa.Function) {
 		if !ok || core.FieldName(fa) != "Offset" || !strings.HasSuffix(core.TypeName(fa.X.Type()), "syncer.StartPoint") {
 			continue
 		}
-		// only the parameter copy reqSp
-		if a, ok := fa.X.(*ssa.Alloc); !ok || a.Comment != "reqSp" {
+		// only the local copy of the requested start point (the cell the parameter was spilled to)
+		a, ok := fa.X.(*ssa.Alloc)
+		if !ok {
+			continue
+		}
+		fromParam := false
+		for _, cs := range core.CellStores(a) {
+			if _, isP := cs.Val.(*ssa.Parameter); isP {
+				fromParam = true
+			}
+		}
+		if !fromParam {
 			continue
 		}
 		n++
@@ -258,9 +268,17 @@ func ruleSendData(w *core.World, r *core.Report, sd *ssa.Function) {
 	okAll := true
 	var pos token.Pos = sd.Pos()
 	var offPhi *ssa.Phi
-	for _, in := range core.Instrs(sd) {
-		if ph, ok := in.(*ssa.Phi); ok && ph.Comment == "offset" {
-			offPhi = ph
+	// the running offset: the loop variable the CONTINUE frames' Offset is computed from
+	for _, s := range core.Sites(sd, false) {
+		if s.Method != "Send" || !s.Common().IsInvoke() {
+			continue
+		}
+		if code, ok := frameCode(s.Args()[0]); ok && code == cont {
+			if b, isB := core.Unwrap(frameField(s.Args()[0], "Offset")).(*ssa.BinOp); isB && b.Op == token.ADD {
+				if ph, isPhi := b.X.(*ssa.Phi); isPhi && offPhi == nil {
+					offPhi = ph
+				}
+			}
 		}
 	}
 	for _, s := range core.Sites(sd, false) {
@@ -351,7 +369,7 @@ func paramAtUse(p *ssa.Parameter, v ssa.Value) bool {
 
 func ruleFollowerWriters(w *core.World, r *core.Report) {
 	if f := fn(w, r, "(*syncer.ReplicaFollower).rdbSync"); f != nil {
-		resp := ssa.Value(param(f, "resp"))
+		resp := ssa.Value(paramOf(f, "SyncResponse", "resp"))
 		r.Rule("R16.5", "", 2)
 		n := 0
 		var nw core.Site
@@ -399,7 +417,7 @@ func ruleFollowerWriters(w *core.World, r *core.Report) {
 		}
 	}
 	if f := fn(w, r, "(*syncer.ReplicaFollower).aofSync"); f != nil {
-		resp := ssa.Value(param(f, "resp"))
+		resp := ssa.Value(paramOf(f, "SyncResponse", "resp"))
 		r.Rule("R16.5", "", 2)
 		var nw core.Site
 		for _, s := range core.Sites(f, false) {
